@@ -99,6 +99,7 @@ type sharedInst struct {
 	p      proxy.Proxy
 	id     string
 	fresh  func() *sharedInst // another instance of the same configuration
+	enc    string             // stack: output_encoding of the endpoint ("" = default)
 }
 
 func newState(lv string, ps pshape) *lvState {
@@ -124,24 +125,30 @@ func sharedPlugin(lv string, ps pshape) *sharedInst {
 	return &sharedInst{kind: "plugin", lv: lv, pe: ps, p: p, id: "plugin|" + lv + "|" + names(ps), fresh: func() *sharedInst { return sharedPlugin(lv, ps) }}
 }
 
-func sharedStack(s sshape, pe, pb pshape) *sharedInst {
+func sharedStack(s sshape, pe, pb pshape) *sharedInst { return sharedStackEnc(s, pe, pb, "") }
+
+// the stack DefaultFactory builds for an endpoint with this output_encoding
+func sharedStackEnc(s sshape, pe, pb pshape, enc string) *sharedInst {
 	eec, bec := config.ExtraConfig{}, config.ExtraConfig{}
 	s.extra(eec)
 	pe.extra(newState("E", pe), eec)
 	pb.extra(newState("B", pb), bec)
-	ep := &config.EndpointConfig{Endpoint: "/x", Method: "GET", ExtraConfig: eec,
+	ep := &config.EndpointConfig{Endpoint: "/x", Method: "GET", ExtraConfig: eec, OutputEncoding: enc,
 		Backend: []*config.Backend{{URLPattern: "/b", ExtraConfig: bec}}}
 	sc := config.ServiceConfig{Version: config.ConfigVersion, Timeout: 5 * time.Second, Host: []string{"http://127.0.0.1:8081"},
 		Endpoints: []*config.EndpointConfig{ep}}
 	if err := sc.Init(); err != nil {
 		panic(err)
 	}
+	if enc != "" && ep.OutputEncoding != enc {
+		panic("output encoding rewritten by Init: " + ep.OutputEncoding)
+	}
 	p, err := proxy.NewDefaultFactory(func(*config.Backend) proxy.Proxy { return ctxStub }, logging.NoOp).New(ep)
 	if err != nil {
 		panic(err)
 	}
-	return &sharedInst{kind: "stack", s: s, pe: pe, pb: pb, p: p, id: "stack|" + s.key() + "|" + names(pe) + "|" + names(pb),
-		fresh: func() *sharedInst { return sharedStack(s, pe, pb) }}
+	return &sharedInst{kind: "stack", s: s, pe: pe, pb: pb, p: p, enc: enc, id: "stack" + enc + "|" + s.key() + "|" + names(pe) + "|" + names(pb),
+		fresh: func() *sharedInst { return sharedStackEnc(s, pe, pb, enc) }}
 }
 
 func names(ps pshape) string {
@@ -214,8 +221,12 @@ func (si *sharedInst) run(st step, scribble bool) (term string, js map[string]in
 		js = map[string]interface{}{"kind": "plugin", "level": si.lv, "config": pe.String(), "inner": st.in.js(), "observed": o.js()}
 		canon = si.id + "|" + pe.String() + "|" + st.in.key()
 	default:
-		term = emit.App("CStack", si.s.coq(), registryCoq(pe, pb), pe.coq(), pb.coq(), st.in.coqResp(), st.in.coqErr(), o.compCoq())
-		js = map[string]interface{}{"kind": "stack", "static": si.s.js(), "endpoint_plugins": pe.String(), "backend_plugins": pb.String(), "inner": st.in.js(), "observed": o.js()}
+		if si.enc != "" {
+			term = emit.App("CStackEnc", emit.Str(si.enc), si.s.coq(), registryCoq(pe, pb), pe.coq(), pb.coq(), st.in.coqResp(), st.in.coqErr(), o.compCoq())
+		} else {
+			term = emit.App("CStack", si.s.coq(), registryCoq(pe, pb), pe.coq(), pb.coq(), st.in.coqResp(), st.in.coqErr(), o.compCoq())
+		}
+		js = map[string]interface{}{"kind": "stack", "output_encoding": si.enc, "static": si.s.js(), "endpoint_plugins": pe.String(), "backend_plugins": pb.String(), "inner": st.in.js(), "observed": o.js()}
 		canon = si.id + "|" + pe.String() + "|" + pb.String() + "|" + st.in.key()
 	}
 	if scribble {
@@ -430,8 +441,12 @@ func (si *sharedInst) crashed(st step, msg string) (term string, js map[string]i
 		term = emit.App("CPlugin", lvCoq(si.lv), registryCoq(pe), pe.coq(), st.in.coqResp(), st.in.coqErr(), o.compCoq())
 		js = map[string]interface{}{"kind": "plugin", "level": si.lv, "config": pe.String(), "inner": st.in.js(), "observed": o.js()}
 	default:
-		term = emit.App("CStack", si.s.coq(), registryCoq(pe, pb), pe.coq(), pb.coq(), st.in.coqResp(), st.in.coqErr(), o.compCoq())
-		js = map[string]interface{}{"kind": "stack", "static": si.s.js(), "endpoint_plugins": pe.String(), "backend_plugins": pb.String(), "inner": st.in.js(), "observed": o.js()}
+		if si.enc != "" {
+			term = emit.App("CStackEnc", emit.Str(si.enc), si.s.coq(), registryCoq(pe, pb), pe.coq(), pb.coq(), st.in.coqResp(), st.in.coqErr(), o.compCoq())
+		} else {
+			term = emit.App("CStack", si.s.coq(), registryCoq(pe, pb), pe.coq(), pb.coq(), st.in.coqResp(), st.in.coqErr(), o.compCoq())
+		}
+		js = map[string]interface{}{"kind": "stack", "output_encoding": si.enc, "static": si.s.js(), "endpoint_plugins": pe.String(), "backend_plugins": pb.String(), "inner": st.in.js(), "observed": o.js()}
 	}
 	return term, js, si.id + "|crashed"
 }
@@ -489,6 +504,8 @@ func reuseCorpus(w *out.Writer) {
 	sharedPlugin("E", seqList()).sequence(w, "corpus-plugin-E", pluginSeq)
 	sharedPlugin("B", seqList()).sequence(w, "corpus-plugin-B", pluginSeq)
 	sharedStack(okStatic(2, "errored"), seqList(), shortList()).sequence(w, "corpus-stack", pluginSeq)
+	// a no-op endpoint gets its modifiers and its static data like any other
+	sharedStackEnc(okStatic(0, "always"), seqList(), shortList(), "no-op").sequence(w, "corpus-stack-no-op", pluginSeq)
 }
 
 func reuseStreams(cfg out.Config, w *out.Writer, r *rng.R) {
@@ -530,6 +547,8 @@ func reuseStreams(cfg out.Config, w *out.Writer, r *rng.R) {
 	}
 	for _, st := range []string{"always", "success", "errored", "complete", "incomplete"} {
 		sharedStack(okStatic(2, st), shortList(), seqList()).sequence(w, "stack-"+st, pluginSeq)
+		sharedStackEnc(okStatic(0, st), seqList(), shortList(), "no-op").sequence(w, "stack-no-op-"+st, pluginSeq)
+		sharedStackEnc(okStatic(4, st), pshape{kind: "nons"}, pshape{kind: "nons"}, "no-op").sequence(w, "stack-no-op-static-only-"+st, staticSeqs[0])
 	}
 	for i := 0; i < nRand; i++ {
 		s := okStatic([]int{0, 2, 4}[i%3], []string{"always", "success", "errored", "complete", "incomplete"}[r.Intn(5)])
